@@ -712,6 +712,10 @@ def resume (s : Sc) (t : TaskS) (b : BusyOn) : Option Sc :=
      | some bc' =>
        let sid := 4 * s.nextBidi
        let s := ({ s with bc := bc', nextBidi := s.nextBidi + 1 }.mkStream sid)
+       -- the second gate of `send_request` (D-08c): the call has waited for its stream; the closing flag — the
+       -- peer's GOAWAY processed, or this endpoint's own `shutdown` — is read again before anything is written,
+       -- and the stream just opened is dropped without a byte
+       if s.closing || s.recvClosing then some (free s) else
        (match hint with
         | some fs =>
           some ((s.mstep (.sendRequest sid fs)).updTask t.name
